@@ -126,6 +126,7 @@ func ruleStoreContracts(r *Run) {
 		okPaths := 0
 		for pi := range paths {
 			path := &paths[pi]
+			r.at(path)
 			ops := r.mapOps(fn, path)
 			g := r.guardMap(path)
 			ret := r.retCanon(fn, path)
@@ -164,6 +165,7 @@ func ruleStoreContracts(r *Run) {
 		okPaths := 0
 		for pi := range paths {
 			path := &paths[pi]
+			r.at(path)
 			ops := r.mapOps(fn, path)
 			g := r.guardMap(path)
 			ret := r.retCanon(fn, path)
@@ -187,6 +189,7 @@ func ruleStoreContracts(r *Run) {
 		inner := "recv.entityComponents[param:#0]"
 		for pi := range paths {
 			path := &paths[pi]
+			r.at(path)
 			ops := r.mapOps(fn, path)
 			g := r.guardMap(path)
 			ret := r.retCanon(fn, path)
@@ -220,6 +223,7 @@ func ruleStoreContracts(r *Run) {
 		iter := 0
 		for pi := range paths {
 			path := &paths[pi]
+			r.at(path)
 			r.loopsComplete("S-DeleteByEntity", fn, path)
 			for _, op := range r.mapOps(fn, path) {
 				iter++
@@ -241,6 +245,7 @@ func ruleStoreContracts(r *Run) {
 		r.Analysed(fn, len(paths))
 		for pi := range paths {
 			path := &paths[pi]
+			r.at(path)
 			ops := r.mapOps(fn, path)
 			g := r.guardMap(path)
 			ret := r.retCanon(fn, path)
@@ -289,6 +294,7 @@ func ruleStoreContracts(r *Run) {
 		r.Analysed(fn, len(paths))
 		for pi := range paths {
 			path := &paths[pi]
+			r.at(path)
 			g := r.guardMap(path)
 			ret := r.retCanon(fn, path)
 			switch g["maplookup:"+q.idx+"["+q.key+"]"] {
@@ -321,6 +327,7 @@ func (r *Run) checkListing(fn *Func, over string, rule string) {
 	iter := 0
 	for pi := range paths {
 		path := &paths[pi]
+		r.at(path)
 		r.loopsComplete(rule, fn, path)
 		for i, ev := range path.Events {
 			if ev.Kind != EvGuard || ev.GKind != GRange || !ev.Val {
@@ -434,6 +441,7 @@ func ruleSubscriptions(r *Run) {
 		r.Analysed(fn, len(paths))
 		for pi := range paths {
 			path := &paths[pi]
+			r.at(path)
 			ops := r.mapOps(fn, path)
 			g := r.guardMap(path)
 			ret := r.retCanon(fn, path)
@@ -462,6 +470,7 @@ func ruleSubscriptions(r *Run) {
 		dels := 0
 		for pi := range paths {
 			path := &paths[pi]
+			r.at(path)
 			ops := r.mapOps(fn, path)
 			g := r.guardMap(path)
 			if g["maplookup:"+subs] == "miss" {
@@ -482,6 +491,7 @@ func ruleSubscriptions(r *Run) {
 		iter := 0
 		for pi := range paths {
 			path := &paths[pi]
+			r.at(path)
 			r.loopsComplete("S-UnsubscribeAll", fn, path)
 			for _, op := range r.mapOps(fn, path) {
 				iter++
@@ -503,6 +513,7 @@ func ruleSubscriptions(r *Run) {
 		called, skipped := 0, 0
 		for pi := range paths {
 			path := &paths[pi]
+			r.at(path)
 			calls := 0
 			var callEv Event
 			for _, ev := range path.Events {
@@ -571,6 +582,7 @@ func ruleIDGenerator(r *Run) {
 	fresh, recycled := 0, 0
 	for pi := range paths {
 		path := &paths[pi]
+		r.at(path)
 		ops := r.mapOps(fn, path)
 		ret := r.retCanon(fn, path)
 		incs := 0
@@ -651,6 +663,7 @@ func ruleBroadcastShape(r *Run) {
 		deliver, skip := 0, 0
 		for pi := range paths {
 			path := &paths[pi]
+			r.at(path)
 			enc := 0
 			for _, ev := range path.Events {
 				if ev.Kind == EvCall && ev.Callee == fromProto {
@@ -717,6 +730,7 @@ func ruleBroadcastShape(r *Run) {
 		deliver := 0
 		for pi := range paths {
 			path := &paths[pi]
+			r.at(path)
 			r.loopsComplete("C3", fn, path)
 			for i, ev := range path.Events {
 				if ev.Kind != EvGuard || ev.GKind != GRange {
@@ -784,6 +798,7 @@ func ruleBroadcastShape(r *Run) {
 		r.Analysed(fn, len(paths))
 		for pi := range paths {
 			path := &paths[pi]
+			r.at(path)
 			r.loopsComplete("J6", fn, path)
 			for i, ev := range path.Events {
 				if ev.Kind != EvGuard || ev.GKind != GRange || !ev.Val {
@@ -870,6 +885,7 @@ func ruleRelaySync(r *Run) {
 		paths := r.Paths(fn)
 		for pi := range paths {
 			path := &paths[pi]
+			r.at(path)
 			for _, ev := range path.Events {
 				if ev.Kind == EvChanOp && isSendChan(ev.Fn, ev.Chan) && !seenPos[ev.Pos] {
 					seenPos[ev.Pos] = true
@@ -908,6 +924,7 @@ func ruleRelaySync(r *Run) {
 		delivered := 0
 		for pi := range paths {
 			path := &paths[pi]
+			r.at(path)
 			sends := 0
 			valOK := false
 			encErr := ""
@@ -950,6 +967,7 @@ func ruleRelaySync(r *Run) {
 		}
 		fld := r.P.LookupField(pkgWS, "responseSender", q.field)
 		for _, path := range r.Paths(fn) {
+			r.at(&path)
 			calls := 0
 			argOK := false
 			for _, ev := range path.Events {
@@ -987,6 +1005,7 @@ func ruleRelaySync(r *Run) {
 		n := 0
 		for pi := range paths {
 			path := &paths[pi]
+			r.at(path)
 			for i, ev := range path.Events {
 				if ev.Kind == EvChanOp && !ev.Send && isSendChan(ev.Fn, ev.Chan) && ev.Depth == 0 {
 					writes := 0
@@ -1026,6 +1045,7 @@ func ruleIDSources(r *Run) {
 		}
 		r.Analysed(fn, 1)
 		for _, path := range r.Paths(fn) {
+			r.at(&path)
 			ret := r.retCanon(fn, &path)
 			r.CheckT("D5", fn.Name+":source", len(ret) == 1 && ret[0] == q.gen+".call:SequentialIDGenerator.New()", fn.Body.Pos(), &path,
 				"%s hands out the next id of its own generator %s (returns %v)", fn.Name, q.gen, ret)
@@ -1110,6 +1130,7 @@ func ruleIDSources(r *Run) {
 	addE := r.P.LookupFunc(pkgModels, "Participant", "AddEntity")
 	for _, c := range r.callersOf(addE) {
 		for _, path := range r.Paths(c) {
+			r.at(&path)
 			for _, ev := range path.Events {
 				if ev.Kind == EvCall && ev.Callee == addE {
 					rc, ac := r.P.Canon(c, ev.Recv), r.P.Canon(c, ev.Call.Args[0])
@@ -1130,6 +1151,7 @@ func ruleRegistry(r *Run) {
 	if fn := r.modelFunc("models.(*SessionStore).GetByGlobalID"); fn != nil {
 		r.Analysed(fn, 1)
 		for _, path := range r.Paths(fn) {
+			r.at(&path)
 			ret := r.retCanon(fn, &path)
 			ok := len(ret) == 2 && ret[0] == "recv.sessions[param:#0]" && ret[1] == "recv.sessions[param:#0]#1"
 			r.CheckT("E7", fn.Name+":verbatim-lookup", ok, fn.Body.Pos(), &path,
@@ -1141,6 +1163,7 @@ func ruleRegistry(r *Run) {
 	if fn := r.modelFunc("models.(*SessionStore).Add"); fn != nil {
 		r.Analysed(fn, 1)
 		for _, path := range r.Paths(fn) {
+			r.at(&path)
 			held := r.locksAlong(&path, lockset{})
 			ops := r.mapOps(fn, &path)
 			okW := len(ops) == 1 && ops[0].Kind == "write" && ops[0].Map == "recv.sessions" && ops[0].Key == key("param:#1.ID") && ops[0].Val == "param:#1"
@@ -1162,6 +1185,7 @@ func ruleRegistry(r *Run) {
 		reuse := r.P.LookupFunc(pkgModels, "SequentialIDGenerator", "Reuse")
 		closeF := r.P.LookupFunc(pkgModels, "Session", "Close")
 		for _, path := range r.Paths(fn) {
+			r.at(&path)
 			held := r.locksAlong(&path, lockset{})
 			ops := r.mapOps(fn, &path)
 			okD := len(ops) == 1 && ops[0].Kind == "delete" && ops[0].Map == "recv.sessions" && ops[0].Key == key("param:#1.ID")
@@ -1184,9 +1208,10 @@ func ruleRegistry(r *Run) {
 	if fn := r.modelFunc("models.(*SessionStore).GlobalSessionID"); fn != nil {
 		r.Analysed(fn, 1)
 		for _, path := range r.Paths(fn) {
+			r.at(&path)
 			ok := false
 			for _, ev := range path.Events {
-				if ev.Kind == EvReturn && len(ev.Results) == 1 {
+				if ev.Kind == EvReturn && ev.Depth == 0 && len(ev.Results) == 1 {
 					if call, isCall := ast.Unparen(ev.Results[0]).(*ast.CallExpr); isCall && len(call.Args) == 3 {
 						f, _ := calleeObj(fn.Info(), call).(*types.Func)
 						tv := fn.Info().Types[call.Args[0]]
@@ -1212,8 +1237,9 @@ func ruleRegistry(r *Run) {
 	if fn := r.modelFunc("models.NewSession"); fn != nil {
 		r.Analysed(fn, 1)
 		for _, path := range r.Paths(fn) {
+			r.at(&path)
 			for _, ev := range path.Events {
-				if ev.Kind != EvReturn {
+				if ev.Kind != EvReturn || ev.Depth != 0 {
 					continue
 				}
 				lit := r.P.compositeOf(fn, ev.Results[0])
@@ -1225,7 +1251,7 @@ func ruleRegistry(r *Run) {
 						}
 					}
 					ok = ok && r.P.Canon(fn, litField(lit, "ID")) == "param:#0" && strings.Contains(r.P.Canon(fn, litField(lit, "SessionUUID")), "call:uuid.New()") &&
-						r.P.Canon(fn, litField(lit, "entityComponents")) == "call:models.newEntityComponentStore()" &&
+						(r.P.Canon(fn, litField(lit, "entityComponents")) == "call:models.newEntityComponentStore()" || strings.HasPrefix(r.P.Canon(fn, litField(lit, "entityComponents")), "&lit:models.EntityComponentStore@")) &&
 						litField(lit, "participantIDs") == nil && litField(lit, "entityIDs") == nil
 				}
 				r.CheckT("E7", fn.Name+":fresh", ok, fn.Body.Pos(), &path, "a new session starts with empty collections, its own component store and id generators, and a new UUID (nothing carried over from an earlier session with the same id)")
@@ -1264,6 +1290,7 @@ func ruleFramePair(r *Run) {
 		r.Analysed(fn, 1)
 		sent := 0
 		for _, path := range r.Paths(fn) {
+			r.at(&path)
 			entered := false
 			for _, ev := range path.Events {
 				if ev.Kind == EvEnter {
@@ -1299,6 +1326,7 @@ func ruleFramePair(r *Run) {
 		ticks, exits := 0, 0
 		for pi := range paths {
 			path := &paths[pi]
+			r.at(path)
 			held := r.locksAlong(path, lockset{})
 			for i, ev := range path.Events {
 				if ev.Kind == EvReturn && ev.Depth > 0 {
@@ -1341,6 +1369,7 @@ func ruleFramePair(r *Run) {
 		sdf := r.P.LookupFunc(pkgModels, "Session", "StartDispatchFrames")
 		created, started := 0, 0
 		for _, path := range r.Paths(jf) {
+			r.at(&path)
 			iAdd := idxOfCall(&path, add, 0)
 			goIdx := -1
 			for i, ev := range path.Events {
@@ -1361,6 +1390,7 @@ func ruleFramePair(r *Run) {
 		// registration of the connection's callback on join
 		hf := r.P.LookupFunc(pkgModels, "Session", "HandleFrame")
 		for _, path := range r.Paths(jf) {
+			r.at(&path)
 			iAddP := idxOfCall(&path, r.P.LookupFunc(pkgModels, "Session", "AddParticipant"), 0)
 			if iAddP < 0 {
 				continue
@@ -1386,6 +1416,7 @@ func ruleFramePair(r *Run) {
 	if fn := r.modelFunc("models.(*Session).HandleFrame"); fn != nil {
 		r.Analysed(fn, 1)
 		for _, path := range r.Paths(fn) {
+			r.at(&path)
 			held := r.locksAlong(&path, lockset{})
 			okW := false
 			for _, op := range r.mapOps(fn, &path) {
@@ -1397,6 +1428,7 @@ func ruleFramePair(r *Run) {
 		}
 		for _, lf := range r.litsUnder(fn) {
 			for _, path := range r.Paths(lf) {
+				r.at(&path)
 				held := r.locksAlong(&path, lockset{})
 				okD := false
 				for _, op := range r.mapOps(lf, &path) {
